@@ -409,6 +409,7 @@ func runC01(r *an.Run) {
 		})
 	windowDiscipline(r)
 	modifiedMarkerDiscipline(r)
+	persistRestoreKindAgreement(r)
 }
 
 func indexParam(fn string) int {
